@@ -1066,3 +1066,43 @@ def or_fold(check: Check, repo: Repo, rule: str = "OR-FOLD") -> None:
                      f"the loop also runs over the definition node ({elems}): its own falsy value is replaced by the fallback")
     if n < 1:
         raise AnalysisError("OR-FOLD: no `x = f(node) or x` fold found in extend_schema.py")
+
+
+def change_flag(check: Check, repo: Repo, rule: str = "CHANGE-FLAG") -> None:
+    from sa.cfg import CFG, no_exc
+
+    check.rule(
+        rule,
+        "ExtendSchemaImpl.extend_schema_args marks the schema as changed only for definitions it collected: on "
+        "the CFG of the scan loop no path leads from the loop head to `is_schema_changed = True` without "
+        "passing a statement of one of the collecting arms (schema / directive / type definitions and "
+        "extensions). An executable definition - an operation *or a fragment* - must fall through to "
+        "`continue`, otherwise extending with a document that adds nothing returns a copy instead of the "
+        "original schema object",
+    )
+    fn = repo.func("utilities.extend_schema", "ExtendSchemaImpl.extend_schema_args")
+    flags = [s for s in walk_body(fn) if isinstance(s, ast.Assign) and unparse(s.targets[0]) == "is_schema_changed"
+             and isinstance(s.value, ast.Constant) and s.value.value is True]
+    if not flags:
+        raise AnalysisError("extend_schema_args: `is_schema_changed = True` not found")
+    cfg = CFG(fn)
+    for flag in flags:
+        loop = next((a for a in _ancestors_until(flag, fn) if isinstance(a, ast.For)), None)
+        if loop is None:
+            raise AnalysisError("extend_schema_args: the change flag is not set inside the scan loop")
+        var = unparse(loop.target)
+        arm_stmts: list[ast.AST] = []
+        for n in ast.walk(loop):
+            if isinstance(n, ast.If) and f"isinstance({var}," in unparse(n.test):
+                arm_stmts += [s for s in n.body if not isinstance(s, ast.Continue)]
+            elif isinstance(n, ast.Match) and unparse(n.subject) == var:
+                for case in n.cases:
+                    if any(isinstance(p, ast.MatchClass) for p in ast.walk(case.pattern)):
+                        arm_stmts += [s for s in case.body if not isinstance(s, ast.Continue)]
+        collect = {nd for s in arm_stmts for nd in cfg.nodes_of(s)}
+        head = cfg.nodes_of(loop)[0]
+        goals = set(cfg.nodes_of(flag))
+        path = cfg.find_path(head, lambda nd: nd in goals, follow=no_exc, avoid=lambda nd: nd in collect)
+        check.ob(rule, flag, "is_schema_changed = True only after a collecting arm", path is None and bool(collect),
+                 f"{len(arm_stmts)} collecting statements; every path to the flag passes one" if path is None and collect else
+                 "a definition that matches no collecting arm still sets the flag: " + (cfg.describe_path(path) if path else "no collecting arm found"))
